@@ -288,7 +288,11 @@ func runSym(g *gctx, gr group) {
 	if sp.cbc {
 		exp = "any"
 	}
-	dec("key-wrong-bytes", exp, ct, flip(keyBytes, g.round), nonceBytes, tag, ad, nil)
+	fi := g.round
+	if sp.hm {
+		fi %= sp.mac // flip a MAC-key byte: a wrong encryption key alone passes the MAC and unpads by chance 1 time in ~256
+	}
+	dec("key-wrong-bytes", exp, ct, flip(keyBytes, fi), nonceBytes, tag, ad, nil)
 	dec("key-type", "err", ct, nil, nonceBytes, tag, ad, rsaPriv)
 
 	// crafted: valid framing (and MAC), invalid PKCS#7 padding
